@@ -91,3 +91,10 @@ Fixpoint spec_counter (ws : list N) (W : N) (idx_of : N -> nat) (counted : list 
 (* big stakes: the common shift is the least s with (total >> s) < 2^31 *)
 Definition shift_ok (total s : N) : bool :=
   (N.shiftr total s <? 2147483648) && ((s =? 0) || (2147483648 <=? N.shiftr total (s - 1))).
+Fixpoint find_shift (fuel : nat) (s total : N) : option N :=
+  if shift_ok total s then Some s
+  else match fuel with O => None | S f => find_shift f (s + 1) total end.
+(* the set a big builder must produce: every effective stake scaled by the one common shift,
+   stakes that scale to zero dropped *)
+Definition big_spec_pairs (ops : list (N * N)) (s : N) : list (N * N) :=
+  filter (fun p => negb (snd p =? 0)) (map (fun p => (fst p, N.shiftr (snd p) s)) (eff_pairs ops)).
